@@ -10,7 +10,8 @@ from vf.runner import UnitSpec
 from vf.unit import eq, holds, from_code
 
 TABLES = ['isa_blk']
-QUICK_LABELS = {'LO', 'HI', 'TOP', 'ALL', 'ALL8', 'LO8', 'LO8P', 'ALL9', 'SYM', 'ALLP', 'SYMRN', 'SP'}
+QUICK_LABELS = {'LO', 'HI', 'ALL', 'SYM', 'SYMRN', 'LO8P', 'ALLP'}
+QUICK_FIRST = {'ALL8': 'SYMRN', 'ALL9': None, 'LO8': None}  # (8/9-bit fully symbolic lists: thorough tier)
 
 
 def mk_push_pop(iset, sym_mask, pattern, arch=7):
@@ -86,7 +87,9 @@ def units(tier, seed=0):
                     if tier == 'quick' and label not in QUICK_LABELS:
                         continue
                     us.append(UnitSpec(uname, 'vf.step', 'mk_step', opts, max_seconds=2400, weight=3))
-    for iset, sym, pat in (('A', 0x00FF, 0x0000), ('A', 0x5F00, 0x0001), ('T16', 0xFF, 0)):
+    pp = (('A', 0x000F, 0x0000), ('A', 0x5000, 0x0003), ('T16', 0x0F, 0x20)) if tier == 'quick' else \
+        (('A', 0x003F, 0x0000), ('A', 0x5F00, 0x0001), ('T16', 0x3F, 0x80), ('T16', 0xC3, 0x04))
+    for iset, sym, pat in pp:
         us.append(UnitSpec('push_pop/%s/%04x' % (iset, sym), 'vf.c03', 'mk_push_pop',
                            dict(iset=iset, sym_mask=sym, pattern=pat), max_seconds=2400, weight=5))
     return us
